@@ -156,7 +156,11 @@ EvSelect(e) ==
       called == e.called
       lids == LeafIds(m)
       spec == SpecPoly(Mk(e.recipe))
-  IN IF ~(~IsAtom(m) /\ WellDefined(m) /\ NoByRef(m) /\ PrioConsistent(m)) THEN {"outside_domain"}
+      sm == Mk(e.recipe)
+      \* the domain is decided on the SPECIFIED configurator (what the recipe denotes); a recipe in the domain whose built object is
+      \* not well defined (say, a group that kept an option twice) is not the specified configurator
+  IN IF ~(~IsAtom(sm) /\ WellDefined(sm) /\ NoByRef(sm) /\ PrioConsistent(sm)) \/ IsAtom(m) THEN {"outside_domain"}
+     ELSE IF ~(WellDefined(m) /\ NoByRef(m) /\ PrioConsistent(m)) THEN (IF e.spec_ok THEN {"dpv_expected"} ELSE {"outside_domain"})
      ELSE IF e.solver = "raise" THEN QFail("raises_infeasible", e.exc = "InfeasibleError")
      ELSE QFail("no_exception", e.exc = "")
      \cup (IF e.exc # "" \/ ~called THEN {} ELSE
